@@ -6,7 +6,7 @@ PROP = "C06"
 DRIVER = "drv_cells"
 LEAN_MODULES = ["MesaModel.Props.C06", "MesaModel.Props.C18Cells", "MesaModel.Props.C01Cells"]
 THEOREMS = ["Mesa.Cells." + t for t in (
-    "C06_spaces_wellformed", "C06_mirror", "C06_capacity", "C06_views", "C06_select_random_empty_cell",
+    "C06_spaces_wellformed", "C06_mirror", "C06_capacity", "C06_capacity_write", "C06_views", "C06_select_random_empty_cell",
     "C06_remove_leaves_cell", "C06_direction_map_generated", "C06_invariant_all_histories",
     "C06_histories_with_connection_edits", "C06_collection_views", "C06_select_spec", "C06_select_random_spec",
     "C06_hex_direction_names", "C06_voronoi_default_capacity",
@@ -44,7 +44,8 @@ RULE = ("random histories on random spaces: Moore/von Neumann grids with 1-3 axe
         "in, [cell], select with filter_func none/is_empty/occupied/is_full/not full and at_most inf/int (also <= 0)/float fractions/"
         "floats > 1, chained, select_random_cell / select_random_agent with 0-3 scripted draws) on all_cells, empties, "
         "get_neighborhood(r, ic), neighborhood and selections of these — ~12% of the ops; ~4%: `cell.agents` handed out and cleared (a copy: "
-        "nothing may change) / a cell emptied by `for a in cell.agents: a.remove()`}; 45% of the networks are not simple (self loops, repeated / "
+        "nothing may change) / a cell emptied by `for a in cell.agents: a.remove()`; ~4% on every space family: `cell.capacity = k` written by hand "
+        "(None, 0, 1-3, the occupancy -1 / +0 / +1; mostly on occupied cells; rarely no such cell), the capacities of all cells are part of every observation}; 45% of the networks are not simple (self loops, repeated / "
         "antiparallel edges, MultiGraph / MultiDiGraph), capacity 0 in 1 of 7 headers, 40% of the default-capacity Voronoi grids are also given a "
         "`capacity` argument (overwritten by the function); every third scenario also with "
         "Cell.connect / Cell.disconnect edits (existing, new and default keys, non-cells) at the cells of movable agents; the full observation (agent.cell, "
